@@ -423,7 +423,6 @@ func minMaxShape(c *Ctx, rule string) {
 	}
 }
 
-
 // c05R7: commit notifications cannot cross terms. Each term's leader state
 // gets a fresh commitCh, the term's commitment tracker signals on that very
 // channel, and the channel is dropped when leadership ends. (A notification
